@@ -344,7 +344,15 @@ def trainer_add_monitor(c):
     c.ensure("returns_the_pool_monitor", out.value == "<monitor>")
     c.canary("canary_tags_dropped", z3.BoolVal(not kw))
 
+# every STDP-family rule pairs presynaptic (receptive) and postsynaptic (receptive) views tap by tap / output by output:
+# for Conv2D cells that is the layout contract of C05 (unfold order of taps and of output positions)
+from . import c05_connections as _c05  # noqa: E402
+
+_c05.make_conv_layout("C08")
+_c05.make_conv_layout("C09")
+
 MUTANTS = [
+    dict(file=_c05.CONV, func="Conv2D.postsyn_receptive", old='"b f oh ow -> b f 1 1 1 (oh ow)"', new='"b f oh ow -> b f 1 1 1 (ow oh)"', contracts=["Conv2D.layouts"], name="seed C08g: postsynaptic receptive view flattened column-major"),
     dict(file=LBASE, func="CellTrainer.add_monitor", old="return self.monitor_pool_.add_monitor(cell, name, attr, monitor, unique, **tags)", new="return self.monitor_pool_.add_monitor(cell, name, attr, monitor, unique)", contracts=["CellTrainer.add_monitor[forwards to the pool]"], name="seed C08f: pooling tags dropped on the way to the pool"),
     dict(file=KS, func="DelayAdjustedKernelSTDPD._build_cell_state", old='        kernel_pre_kwargs = kwargs.get(\n            "kernel_pre_kwargs",', new='        kernel_pre_kwargs = kwargs.get(\n            "kernel_post_kwargs",', contracts=["DelayAdjustedKernelSTDPD.defaults"], name="seed C18f: the presynaptic kernel arguments are overridden by the POSTsynaptic per-cell override"),
     dict(file=T3, func="MSTDPET.register_cell", old='                reducer=state.tracecls(\n                    cell.connection.dt,\n                    state.tc_pre,', new='                reducer=CumulativeTraceReducer(\n                    cell.connection.dt,\n                    state.tc_pre,', contracts=["MSTDPET.register_cell"], name="seed C08e: presynaptic trace ignores the configured trace mode"),
